@@ -1,5 +1,7 @@
 import WhVerif.Lemmas.C08Example
 import WhVerif.Lemmas.C08Pos
+import WhVerif.Lemmas.C08ScaleProd
+import WhVerif.Lemmas.C08Conv
 /-!
 # C08 — genotyping reports the exact posterior of its HMM; GT, GL and GQ agree.
 
@@ -74,6 +76,20 @@ theorem scaling_irrelevant [Field K] (inst : Inst) (p : Params K) (S S' : Scal K
   unfold likelihood
   rw [likelihoodSel_scale _ _ S hS, likelihoodSel_scale _ _ S' hS']
 
+/-- **the scaled recurrences are the unscaled ones times the product of the (inverse) scaling factors** – explicitly,
+over every field and for *every* scaling (also a zero divisor: `x / 0 = x·0⁻¹`): the forward projection column of
+column `c` carries `Π_{c' ≤ c} 1/fw c'`, the backward column written after `d + 1` backward steps carries
+`Π_{j ≤ d} 1/bw (n-1-j)`, and every `forward_backward` numerator of column `c` (hence `normalization`) carries
+`fbFactor = Π_{c' ≤ c} 1/fw c' · Π_{c' > c} 1/bw c' · 1/bw2 c`.  `scaling_irrelevant` is the corollary for non-zero factors. -/
+theorem scaled_equals_unscaled_times_factors [Field K] (F : Frame) (W : Weights K) (S : Scal K) (c : Nat) (hc : c < F.nCols) :
+    (∀ k, tblAt (fwdTbl F W S c) k = (∏ c' ∈ range (c + 1), (S.fw c')⁻¹) * tblAt (fwdTbl F W Scal.one c) k) ∧
+    (∀ d, d + 2 ≤ F.nCols → ∀ k, tblAt (bwdTbl F W S d) k =
+        (∏ j ∈ range (d + 1), (S.bw (F.nCols - 1 - j))⁻¹) * tblAt (bwdTbl F W Scal.one d) k) ∧
+    (∀ sel, numer F W S c sel = fbFactor S F.nCols c * numer F W Scal.one c sel) ∧
+    total F W S c = fbFactor S F.nCols c * total F W Scal.one c :=
+  ⟨fwdTbl_scale_prod F W S c, fun d hd => bwdTbl_scale_prod F W S d hd, numer_scale_prod F W S c hc,
+   numer_scale_prod F W S c hc _⟩
+
 /-! ## the likelihoods are the posterior of the HMM -/
 
 /-- **forward–backward = brute force**: for every well-formed instance, every column and every non-zero
@@ -114,6 +130,151 @@ theorem likelihoods_are_distribution [Field K] [LinearOrder K] [IsStrictOrderedR
   ⟨fun _ => likelihoodSel_nonneg inst.frame (inst.weights p) S (Inst.frame_WF inst hWF) hS (Inst.weights_pos inst p hp) c hc _,
    likelihoods_sum_to_one inst p S c i (total_ne_zero_of_positive inst p S hWF hp hS c hc)⟩
 
+
+/-! ## the integer side: GQ, the phred threshold and GL as written by `GenotypeVcfWriter.write_genotypes`
+
+`Model/C08Conv.lean`: for a rational mass `q = a/b` of the other genotypes, `round(-10·log10 q) = n` iff
+`a²⁰·10^(2n+1) > b²⁰` and `a²⁰·10^(2n-1) < b²⁰`; `gqNat a b` is `min(·, 10000)` of it. -/
+
+/-- **GQ is the rounded phred value of the mass of the other genotypes, capped at 10000**: `n = gqNat a b` is at most
+10000, every smaller `m` has `-10·log10(a/b) ≥ m + ½` (i.e. `a²⁰·10^(2m+1) ≤ b²⁰`), and below the cap
+`-10·log10(a/b) < n + ½` (i.e. `a²⁰·10^(2n+1) > b²⁰`) -/
+theorem gq_is_rounded_phred_capped (a b : Nat) :
+    gqNat a b ≤ 10000 ∧ (∀ m, m < gqNat a b → a ^ 20 * 10 ^ (2 * m + 1) ≤ b ^ 20) ∧
+      (gqNat a b < 10000 → a ^ 20 * 10 ^ (2 * gqNat a b + 1) > b ^ 20) := by
+  obtain ⟨_, h2, h3, h4⟩ := gqLoop_spec (a ^ 20) (b ^ 20) GQ_CAP 0
+  refine ⟨by simpa [gqNat, GQ_CAP] using h2, fun m hm => ?_, fun h => h4 (by simpa [gqNat, GQ_CAP] using h)⟩
+  exact Nat.le_of_not_gt (h3 m (Nat.zero_le _) hm)
+
+example : gqNat 1 100 = 20 ∧ gqNat 1 1 = 0 ∧ gqNat 891 1000 = 1 ∧ gqNat 892 1000 = 0 := by decide +kernel
+
+/-- **GQ is non-negative and capped** whenever the mass of the other genotypes is at most 1 (a distribution:
+`likelihoods_are_distribution`, `gq_is_other_mass`); mass `≤ 0` (`geno_q > 0` fails) gives exactly 10000 -/
+theorem gq_nonneg_and_capped (num : Int) (den : Nat) (hden : 0 < den) (h : num ≤ den) :
+    0 ≤ gqOf num den ∧ gqOf num den ≤ 10000 ∧ (num ≤ 0 → gqOf num den = 10000) := by
+  unfold gqOf
+  by_cases h0 : num ≤ 0
+  · simp [h0, GQ_CAP]
+  · rw [if_neg h0]
+    have hn : num.toNat ≤ den := by omega
+    have hlt : num.toNat ^ 20 < 10 * den ^ 20 := by
+      have h1 : num.toNat ^ 20 ≤ den ^ 20 := Nat.pow_le_pow_left hn 20
+      have h2 : 0 < den ^ 20 := Nat.pow_pos hden
+      omega
+    rw [if_pos hlt]
+    have := (gq_is_rounded_phred_capped num.toNat den).1
+    refine ⟨by omega, by omega, fun h' => absurd h' h0⟩
+
+example : (0 : Nat) < 100 ∧ ((1 : Int) ≤ (100 : Nat)) := by decide
+
+/-- **GQ is antitone in the mass of the other genotypes**: `a/b ≤ a'/b'` ⟹ `GQ(a'/b') ≤ GQ(a/b)` -/
+theorem gq_antitone (a b a' b' : Nat) (hb : 0 < b) (hb' : 0 < b') (hq : a * b' ≤ a' * b) : gqNat a' b' ≤ gqNat a b :=
+  gqLoop_anti _ _ _ _ (fun _ h => cond_mono a b a' b' _ hb hb' hq h) GQ_CAP 0
+
+example : (0 : Nat) < 100 ∧ (0 : Nat) < 10 ∧ 1 * 10 ≤ 1 * 100 := by decide
+
+/-- **the phred threshold and GQ agree**: for a likelihood `a/b ≤ 1` of the called genotype, whose other mass is
+`(b-a)/b` (`gq_is_other_mass`): above the threshold `1 - 10^(-thr/10)` ⟹ `GQ ≥ thr`; `GQ > thr` ⟹ above the threshold -/
+theorem threshold_agrees_with_gq (a b thr : Nat) (hb : 0 < b) (hthr : thr ≤ 10000) :
+    (aboveThr a b thr = true → thr ≤ gqNat (b - a) b) ∧ (thr < gqNat (b - a) b → aboveThr a b thr = true) := by
+  obtain ⟨hcap, hlow, hup⟩ := gq_is_rounded_phred_capped (b - a) b
+  have hy : 0 < b ^ 10 := Nat.pow_pos hb
+  have e20 : ∀ x : Nat, x ^ 20 = x ^ 10 * x ^ 10 := by intro x; ring
+  constructor
+  · intro h
+    unfold aboveThr at h
+    have hxy : (b - a) ^ 10 * 10 ^ thr < b ^ 10 := by simpa using h
+    by_contra hlt
+    have hlt' : gqNat (b - a) b < thr := by omega
+    have hc := hup (by omega)
+    -- but the condition fails for every m < thr
+    have hpow : 10 ^ (2 * gqNat (b - a) b + 1) ≤ 10 ^ thr * 10 ^ thr := by
+      rw [← Nat.pow_add]; exact Nat.pow_le_pow_right (by decide) (by omega)
+    have h1 : (b - a) ^ 20 * 10 ^ (2 * gqNat (b - a) b + 1) ≤ ((b - a) ^ 10 * 10 ^ thr) * ((b - a) ^ 10 * 10 ^ thr) := by
+      rw [e20]
+      calc (b - a) ^ 10 * (b - a) ^ 10 * 10 ^ (2 * gqNat (b - a) b + 1)
+          ≤ (b - a) ^ 10 * (b - a) ^ 10 * (10 ^ thr * 10 ^ thr) := Nat.mul_le_mul_left _ hpow
+        _ = (b - a) ^ 10 * 10 ^ thr * ((b - a) ^ 10 * 10 ^ thr) := by ring
+    have h2 : ((b - a) ^ 10 * 10 ^ thr) * ((b - a) ^ 10 * 10 ^ thr) < b ^ 10 * b ^ 10 := Nat.mul_lt_mul'' hxy hxy
+    rw [e20 b] at hc
+    omega
+  · intro h
+    have hc := hlow thr h
+    unfold aboveThr
+    simp only [decide_eq_true_eq]
+    by_contra hge
+    have hge' : b ^ 10 ≤ (b - a) ^ 10 * 10 ^ thr := Nat.le_of_not_gt hge
+    have h1 : b ^ 10 * b ^ 10 ≤ ((b - a) ^ 10 * 10 ^ thr) * ((b - a) ^ 10 * 10 ^ thr) := Nat.mul_le_mul hge' hge'
+    have h2 : (b - a) ^ 20 * 10 ^ (2 * thr + 1) = ((b - a) ^ 10 * 10 ^ thr) * ((b - a) ^ 10 * 10 ^ thr) * 10 := by
+      rw [e20, Nat.pow_succ, Nat.two_mul, Nat.pow_add]; ring
+    rw [h2, e20 b] at hc
+    have : 0 < b ^ 10 * b ^ 10 := Nat.mul_pos hy hy
+    omega
+
+example : aboveThr 999 1000 20 = true ∧ gqNat (1000 - 999) 1000 = 30 ∧ aboveThr 99 100 20 = false ∧ gqNat (100 - 99) 100 = 20 := by
+  decide +kernel
+
+/-- **GL is monotone in the likelihood and bounded below by the floor** (`-1000`, also the value for likelihood 0),
+for any monotone `log10` -/
+theorem gl_monotone_and_floored [LinearOrder K] [Zero K] (lg : K → K) (floor : K)
+    (hlg : ∀ x y, 0 < x → x ≤ y → lg x ≤ lg y) (l l' : K) (h : l ≤ l') :
+    glOf lg floor l ≤ glOf lg floor l' ∧ floor ≤ glOf lg floor l ∧ (¬ 0 < l → glOf lg floor l = floor) := by
+  have hfl : ∀ x, floor ≤ glOf lg floor x := by
+    intro x; unfold glOf
+    split
+    · split
+      · exact le_refl _
+      · rename_i h2; exact le_of_not_gt h2
+    · exact le_refl _
+  refine ⟨?_, hfl l, fun h0 => by unfold glOf; rw [if_neg h0]⟩
+  by_cases h0 : 0 < l
+  · have h0' : 0 < l' := lt_of_lt_of_le h0 h
+    have hm := hlg l l' h0 h
+    unfold glOf
+    rw [if_pos h0, if_pos h0']
+    by_cases c1 : lg l < floor
+    · rw [if_pos c1]
+      by_cases c2 : lg l' < floor
+      · rw [if_pos c2]
+      · rw [if_neg c2]; exact le_of_not_gt c2
+    · rw [if_neg c1]
+      have c2 : ¬ lg l' < floor := fun c2 => c1 (lt_of_le_of_lt hm c2)
+      rw [if_neg c2]; exact hm
+  · have : glOf lg floor l = floor := by unfold glOf; rw [if_neg h0]
+    rw [this]; exact hfl l'
+
+example : glOf (fun x : Rat => x - 1) (-1000) (1 / 2) = -1 / 2 ∧ glOf (fun x : Rat => x - 1) (-1000) 0 = -1000 := by decide +kernel
+
+/-- **GT is the argmax of the written GLs**: when `determine_genotype` calls `g` (unique maximum above the threshold,
+`gt_is_unique_max_above_threshold`), no other genotype has a larger GL, and a strictly smaller one unless the called GL
+itself sits on the floor -/
+theorem gt_is_argmax_of_gl [LinearOrder K] [Zero K] (lg : K → K) (floor : K)
+    (hlg : ∀ x y, 0 < x → x < y → lg x < lg y) (l : Nat → K) (thr : K) (g : Nat)
+    (hcall : determineGenotype (l 0) (l 1) (l 2) thr = some g) (g' : Nat) (hg' : g' < 3) (hne : g' ≠ g) :
+    glOf lg floor (l g') ≤ glOf lg floor (l g) ∧
+      (0 < l g → floor < lg (l g) → glOf lg floor (l g') < glOf lg floor (l g)) := by
+  obtain ⟨_, _, hmax⟩ := (gt_is_unique_max_above_threshold l thr g).mp hcall
+  have hlt := hmax g' hg' hne
+  have hmono : ∀ x y : K, 0 < x → x ≤ y → lg x ≤ lg y := by
+    intro x y hx hxy
+    rcases lt_or_eq_of_le hxy with h | h
+    · exact le_of_lt (hlg x y hx h)
+    · rw [h]
+  refine ⟨(gl_monotone_and_floored lg floor hmono _ _ (le_of_lt hlt)).1, fun h0 hfl => ?_⟩
+  have hg : glOf lg floor (l g) = lg (l g) := by
+    unfold glOf; rw [if_pos h0, if_neg (not_lt_of_gt hfl)]
+  rw [hg]
+  unfold glOf
+  by_cases h0' : 0 < l g'
+  · rw [if_pos h0']
+    have := hlg _ _ h0' hlt
+    split
+    · exact hfl
+    · exact this
+  · rw [if_neg h0']; exact hfl
+
+example : determineGenotype (1/10 : Rat) (7/10) (2/10) (1/2) = some 1 := by decide +kernel
+
 /-! ## non-vacuity: a concrete instance, exact rational arithmetic (kernel evaluation) -/
 
 example : exInst.WF = true := by decide
@@ -129,6 +290,12 @@ example : likelihood exInst exParams exScal 1 0 2 = likelihood exInst exParams S
 example : ∑ g ∈ range 3, likelihood exInst exParams exScal 1 0 g = 1 :=
   likelihoods_sum_to_one exInst exParams exScal 1 0 (by decide +kernel)
 example : exParams.Pos := exParams_pos
+/-- the explicit factor on the concrete instance: hypotheses satisfiable, factor not 1 -/
+example : (1 : Nat) < exInst.frame.nCols := by decide
+example : fbFactor exScal exInst.frame.nCols 1 ≠ 1 := by decide +kernel
+example : total exInst.frame (exInst.weights exParams) exScal 1 =
+    fbFactor exScal exInst.frame.nCols 1 * total exInst.frame (exInst.weights exParams) Scal.one 1 :=
+  (scaled_equals_unscaled_times_factors exInst.frame (exInst.weights exParams) exScal 1 (by decide)).2.2.2
 example : (∀ g, 0 ≤ likelihood exInst exParams exScal 1 0 g) ∧ ∑ g ∈ range 3, likelihood exInst exParams exScal 1 0 g = 1 :=
   likelihoods_are_distribution exInst exParams exScal (by decide) exParams_pos exScal_nonZero 1 (by decide) 0
 example : gqMass (likelihood exInst exParams exScal 1 0) 1 = 1 - posterior exInst exParams 1 0 1 :=
